@@ -70,9 +70,13 @@ func c19RootByte(dev *vpdev.MemDev, i int) byte { return dev.ByteAt(c19RootOff +
 
 // c19Unchanged asserts that bytes [lo,hi) of the root directory still have their initial value.
 func c19Unchanged(dev *vpdev.MemDev, init []byte, lo, hi int) {
+	same := true
 	for i := lo; i < hi; i++ {
-		vp.Assert(c19RootByte(dev, i) == init[i], "directory byte outside the changed attribute is unchanged")
+		if c19RootByte(dev, i) != init[i] {
+			same = false
+		}
 	}
+	vp.Assert(same, "directory bytes outside the changed attribute are unchanged")
 }
 
 func c19Word(dev *vpdev.MemDev, o int) uint16 {
